@@ -2,12 +2,14 @@
 """usage: tools/store_seeded.py <pid> <i> "<detected_by>" [src_dir]  -> /verif/seeded/<PID>-<i>/"""
 import json, os, shutil, sys
 pid, i, det = sys.argv[1].lower(), sys.argv[2], sys.argv[3]
-src = sys.argv[4] if len(sys.argv) > 4 else "/tmp/seed-%s-out/%s" % (pid, i)
-dst = "/verif/seeded/%s-%s" % (pid.upper(), i)
+rnd = int(os.environ.get("ROUND", "1"))          # ROUND=2: second seeding round, stored as <PID>-<i+3>
+src = sys.argv[4] if len(sys.argv) > 4 else "/tmp/seed%s-%s-out/%s" % ("" if rnd == 1 else str(rnd), pid, i)
+dst = "/verif/seeded/%s-%d" % (pid.upper(), int(i) + 3 * (rnd - 1))
 os.makedirs(dst, exist_ok=True)
 for f in ("patch.diff", "demo.py"):
     shutil.copy(os.path.join(src, f), dst)
 m = json.load(open(os.path.join(src, "meta.json")))
+m["round"] = rnd
 m["confirmed"] = {
     "demo": "exit 0 on clean /repo, non-zero with the patch (re-run by tools/try_seeded.sh in a scratch copy)",
     "suite": "per-test outcomes identical to the clean run (6 pre-existing failures) as recorded by the seeding agent",
